@@ -1919,7 +1919,7 @@ fn pairs_to_expr_inner(pairs: Pairs<Rule>, preserve_comments: bool) -> AnyhowRes
                             (1.0, &num_str[2..])
                         };
                         let cleaned = digits.replace("_", "");
-                        let parsed = i64::from_str_radix(&cleaned, 2)
+                        let parsed = u128::from_str_radix(&cleaned, 2)
                             .map_err(|e| anyhow!("Invalid binary number: {}", e))?;
                         sign * parsed as f64
                     } else if num_str.starts_with("0x")
@@ -1935,7 +1935,7 @@ fn pairs_to_expr_inner(pairs: Pairs<Rule>, preserve_comments: bool) -> AnyhowRes
                             (1.0, &num_str[2..])
                         };
                         let cleaned = digits.replace("_", "");
-                        let parsed = i64::from_str_radix(&cleaned, 16)
+                        let parsed = u128::from_str_radix(&cleaned, 16)
                             .map_err(|e| anyhow!("Invalid hexadecimal number: {}", e))?;
                         sign * parsed as f64
                     } else {
